@@ -3,7 +3,7 @@ Observables per case: forward equality wrapped vs untouched copy (train and eval
 optimizer pass-through (param_groups / state / defaults / state_dict / lr scheduler), and after to_standard_module: residual hooks and
 attributes on modules and parameters (diff against a snapshot taken before wrapping), ordinary training vs a never-wrapped twin."""
 from py.harness.common import *
-import copy
+import copy, inspect
 import torch.nn as nn
 from torch.utils.data import DataLoader, TensorDataset
 from opacus import PrivacyEngine
@@ -121,10 +121,13 @@ def run_case(c):
         dl = DataLoader(TensorDataset(torch.zeros(16, 1), torch.zeros(16, dtype=torch.long)), batch_size=B)
         eng = PrivacyEngine()
         crit0 = nn.CrossEntropyLoss(reduction=c['reduction'])
+        default_crit = inspect.signature(PrivacyEngine.make_private).parameters['criterion'].default
+        use_default = c['mode'] == 'ghost' and c['reduction'] == 'mean' and c['seed'] % 2 == 0     # the engine's own default criterion
+        crit_snap = (dict(vars(crit0)), dict(vars(default_crit)))
         kw = dict(module=model, optimizer=inner, data_loader=dl, noise_multiplier=c['sigma'], max_grad_norm=1.0, poisson_sampling=False,
                   grad_sample_mode=c['mode'], loss_reduction=c['reduction'], noise_generator=torch.Generator().manual_seed(5))
         if c['mode'] == 'ghost':
-            wrapped, dpo, crit, _ = eng.make_private(criterion=crit0, **kw)
+            wrapped, dpo, crit, _ = eng.make_private(**kw) if use_default else eng.make_private(criterion=crit0, **kw)
         else:
             wrapped, dpo, _ = eng.make_private(**kw)
             crit = crit0
@@ -247,8 +250,18 @@ def run_case(c):
         for p in model.parameters():
             p.grad = None
         pb = [(mk(g, 5), torch.randint(0, 3, (5,), generator=g)) for _ in range(2)]
-        a = plain_train(model, pb, nn.CrossEntropyLoss())
-        b = plain_train(twin, pb, nn.CrossEntropyLoss())
+        # the user's own criterion object (and the engine's default one) is what ordinary training goes on with
+        for nm, obj, snap in (('criterion passed to make_private', crit0, crit_snap[0]), ('default criterion of make_private', default_crit, crit_snap[1])):
+            now = dict(vars(obj))
+            ch = sorted(k for k in set(now) | set(snap) if k not in now or k not in snap or now[k] is not snap[k] and now[k] != snap[k])
+            if ch:
+                fail('user-criterion-mutated', 'the %s is changed by wrapping and not restored by to_standard_module: %s' % (nm, [(k, snap.get(k), now.get(k)) for k in ch][:3]))
+        try:
+            a = plain_train(model, pb, crit0)
+        except Exception as e:
+            fail('post-unwrap-training', 'ordinary training with the criterion that was passed to make_private raised %s: %s' % (errname(e), str(e)[:120]))
+            a = plain_train(model, pb, nn.CrossEntropyLoss(reduction=c['reduction']))
+        b = plain_train(twin, pb, nn.CrossEntropyLoss(reduction=c['reduction']))
         if not torch.equal(a, b):
             fail('post-unwrap-training', 'ordinary training after unwrapping differs from a never-wrapped twin by %.3g' % float((a - b).abs().max()))
         res2 = diff_snap(snap0, snapshot(model))
